@@ -787,6 +787,30 @@ def o_l2d(R, rng, g):
     R.call("learner2D.default_loss", L2.default_loss, ip)
     R.call("learner2D.resolution_loss_function()", lambda: L2.resolution_loss_function(0.01, 1.0)(ip))
     R.call("learner2D.thresholded_loss_function()", lambda: L2.thresholded_loss_function(0.0, 1.0)(ip))
+    # thresholded loss = default loss, times the priority factor for the triangles whose values all lie below the lower or all
+    # above the upper threshold (every combination of thresholds; the reference is the code's own default_loss)
+    ok_d, base = R.call("learner2D.default_loss", L2.default_loss, ip)
+    if ok_d:
+        vals = np.asarray(ip.values)[np.asarray(simp)]          # (ntri, 3, k)
+        flat = sorted(float(v) for v in np.asarray(ip.values).ravel())
+        lo_t, hi_t = flat[len(flat) // 3], flat[(2 * len(flat)) // 3]
+        for lower, upper in ((lo_t, None), (None, hi_t), (lo_t, hi_t), (hi_t, lo_t)):
+            R.tag(f"thresholded_loss lower={'set' if lower is not None else '-'} upper={'set' if upper is not None else '-'}")
+            ok_t, got_t = R.call("learner2D.thresholded_loss_function()",
+                                 lambda: L2.thresholded_loss_function(lower, upper, 0.1)(ip))
+            if not ok_t:
+                continue
+            want_t = np.array(base, dtype=float).copy()
+            for i in range(len(want_t)):
+                below = lower is not None and bool((vals[i] < lower).all())
+                above = upper is not None and bool((vals[i] > upper).all())
+                if below:
+                    want_t[i] *= 0.1
+                if above:      # (lower > upper: a triangle between the two is deprioritised by both rules)
+                    want_t[i] *= 0.1
+            R.check("learner2D.thresholded_loss_function()", "l2d_thresholded_loss",
+                    np.allclose(np.asarray(got_t, dtype=float), want_t, rtol=1e-12, atol=0.0),
+                    f"thresholded_loss_function({lower}, {upper}) = {np.asarray(got_t).tolist()}, expected {want_t.tolist()}")
     if len(pts) <= 6:
         ok, got = R.call("learner2D.triangle_loss", L2.triangle_loss, ip)
         if ok:
